@@ -293,7 +293,10 @@ fn brackets(ctx: &Ctx) {
         for s in ["[.a.]", "[.-.]", "[.^.]", "[.].]", "[.[.]", "[.!.]", "[=a=]", "[=-=]", "[=^=]", "[=]=]", "[:alpha:]", "[:punct:]", "[:space:]"] {
             t.push(s.chars().map(PC::N).collect());
         }
-        t.push(vec![PC::L('a')]);
+        // quoted characters are plain members, whatever they would mean unquoted
+        for c in ['a', '-', ']', '!', '^', '['] {
+            t.push(vec![PC::L(c)]);
+        }
         t
     };
     let strs: Vec<String> = ["a", "b", "c", "-", "]", "[", "!", "^", ".", "é", "\n", "x", "", "ab", "=", ":", "A", "1", " "]
@@ -661,7 +664,7 @@ pub fn run(ctx: &Ctx) {
     random_long(ctx, if ctx.quick() { 40_000 } else { 1_000_000 });
     shell_level(ctx, if ctx.quick() { 400 } else { 8000 });
     ctx.assume("models/fnm.rs: POSIX XCU 2.14 / XBD 9.3.5 reading; collating symbols and equivalence classes stand for their single literal character; classes are ASCII");
-    ctx.assume("skipped as unspecified: [^...], reversed ranges, a-b-c, unknown [:class:], multi-character [.xx.], unterminated [. inside a bracket, quoted special characters inside a bracket expression");
+    ctx.assume("skipped as unspecified: [^...], reversed ranges, a-b-c, unknown [:class:], multi-character [.xx.], unterminated [. inside a bracket");
 }
 
 pub const RULE: &str = "library level (yash_fnmatch::Pattern with the five configurations the shell uses: anchored both ends, anchored+literal_period, and the four trim configurations applied like the shell does): exhaustive token sequences up to length 4 over {a b . - * ? [ ] ! ^, quoted * [ a (+ ? ] - !), bracket-inner forms [.x.] [=x=] [:class:] as single tokens} x all strings up to length 3 (quick) / 4 over {a b . - ] [ ! ^ newline e-acute}; exhaustive bracket bodies of up to 3 (quick) / 4 inner tokens, plain and complemented, with and without a trailing *; random longer patterns with regex-special and non-ASCII characters; shell level: case (first matching item) and the four trims with random quoting. evaluations = individual comparisons (7 per pattern/text pair); distinct_nontrivial = distinct (pattern with a metacharacter, text) pairs that match";
